@@ -59,6 +59,34 @@ const (
 )
 
 // Everything below is not part of the modelled save protocol and delegates to the real package.
+func Setenv(k, v string) error       { return os.Setenv(k, v) }
+func Unsetenv(k string) error        { return os.Unsetenv(k) }
+func ExpandEnv(s string) string      { return os.ExpandEnv(s) }
+func Executable() (string, error)    { return os.Executable() }
+func Getuid() int                    { return os.Getuid() }
+func Geteuid() int                   { return os.Geteuid() }
+func Getgid() int                    { return os.Getgid() }
+func Getppid() int                   { return os.Getppid() }
+func UserCacheDir() (string, error)  { return os.UserCacheDir() }
+func UserConfigDir() (string, error) { return os.UserConfigDir() }
+
+const DevNull = os.DevNull
+
+type (
+	PathError = os.PathError
+	LinkError = os.LinkError
+	Signal    = os.Signal
+	DirEntry  = os.DirEntry
+)
+
+var (
+	ErrInvalid          = os.ErrInvalid
+	ErrDeadlineExceeded = os.ErrDeadlineExceeded
+	ErrNoDeadline       = os.ErrNoDeadline
+	Interrupt           = os.Interrupt
+	Kill                = os.Kill
+)
+
 func IsExist(err error) bool                 { return os.IsExist(err) }
 func IsPermission(err error) bool            { return os.IsPermission(err) }
 func Getwd() (string, error)                 { return os.Getwd() }
